@@ -46,6 +46,33 @@ def can_short(it):
     return it["seg"] == 1 and SHORT_GRAN.get(it["cpu"]) == it["gran"]
 
 
+def filter_ops(fops, r, envname):
+    """render the -f / +f operations of a case (spec/FilterList.tla): returns (list of command-line option pairs in
+    effect order, environment dict).  Operations flagged env go, in order, into the tool's *CMD variable."""
+    cmd, env = [], []
+    for op in fops:
+        pair = ["+f" if op["neg"] else "-f", ",".join(num(x, r.randrange(4)) for x in op["list"])]
+        (env if op["env"] else cmd).append(pair)
+    e = {envname: " ".join(" ".join(p) for p in env)} if env else {}
+    return cmd, e
+
+
+def weave(others, ordered, r):
+    """shuffle `others` and insert the `ordered` option pairs at random places keeping their relative order"""
+    others = list(others)
+    r.shuffle(others)
+    pos = sorted(r.randrange(len(others) + 1) for _ in ordered)
+    out = []
+    k = 0
+    for i in range(len(others) + 1):
+        while k < len(ordered) and pos[k] == i:
+            out.append(ordered[k])
+            k += 1
+        if i < len(others):
+            out.append(others[i])
+    return out
+
+
 def num(v, style):
     """spell a number the ways the manual allows: decimal, 0x.., $.., ..h"""
     if style == 0:
@@ -76,8 +103,9 @@ def _run_chunk(exe, env, base, chunk, timeout):
                 with open(os.path.join(d, ".stdin"), "wb") as f:
                     f.write(j["stdin"])
                 stdin = ".stdin"
-            lines.append("cd %s && timeout -s KILL %d %s %s >.stdout 2>.stderr <%s; echo $? >.rc"
-                         % (shlex.quote(d), j.get("timeout", timeout), shlex.quote(exe),
+            envp = "".join("%s=%s " % (k, shlex.quote(v)) for k, v in (j.get("env") or {}).items())
+            lines.append("cd %s && %stimeout -s KILL %d %s %s >.stdout 2>.stderr <%s; echo $? >.rc"
+                         % (shlex.quote(d), envp, j.get("timeout", timeout), shlex.quote(exe),
                             " ".join(shlex.quote(a) for a in j["argv"]), stdin))
         script = os.path.join(d0, "run.sh")
         with open(script, "w") as f:
